@@ -40,6 +40,7 @@ type RunState struct {
 	track    bool
 	memo     map[string]*randomness.TestResult
 	prelude  bool
+	companions []string
 }
 
 var active struct {
@@ -73,7 +74,7 @@ func wrapRunner(item int) randomness.TestFunc {
 		if st == nil {
 			return origRunners[item](data)
 		}
-		if st.inPrelude() {
+		if st.inPrelude() || st.fromCompanion() {
 			// an earlier call of the same run: nothing recorded. Its results do
 			// not matter to the oracle; with scripted runners every cell passes
 			// (cheap at any sample size), with real runners they are real.
@@ -113,6 +114,31 @@ func wrapRunner(item int) randomness.TestFunc {
 		st.mu.Unlock()
 		return res
 	}
+}
+
+// addCompanion registers the root task of a companion call: runner calls made
+// by it or by the tasks it spawns are answered like a prelude's (all-pass or
+// real) and not recorded.
+func (st *RunState) addCompanion(id string) {
+	st.mu.Lock()
+	st.companions = append(st.companions, id)
+	st.mu.Unlock()
+}
+
+func (st *RunState) fromCompanion() bool {
+	st.mu.Lock()
+	cs := st.companions
+	st.mu.Unlock()
+	if len(cs) == 0 {
+		return false
+	}
+	id := simrt.CurrentID()
+	for _, c := range cs {
+		if id == c || (len(id) > len(c) && id[:len(c)] == c && id[len(c)] == '.') {
+			return true
+		}
+	}
+	return false
 }
 
 func (st *RunState) setPrelude(on bool) {
